@@ -3,7 +3,7 @@
 
    Model:          Registry/Registry.v      (step, run, the four query functions)
    Specification:  Spec/RegistrySpec.v      (spec_step, spec_run; variants [literal] and
-                                             [as_implemented] = literal + exceptions F4, F4b)
+                                             [as_implemented] = literal + exception F4)
    A history is a list of events (Connect / Hello / AddMatch / RequestName /
    ReleaseName / Disconnect) started from the empty bus with any per-connection
    name limit.  The release order among the well-known names of a closing
@@ -26,8 +26,10 @@ Definition C04_full_statement : Prop :=
     snd (spec_run literal (sinit limit) h adv 0) = snd (run (init_bus limit) h) /\
     forall a, list_queued_owners (fst (run (init_bus limit) h)) a = spec_queued (fst (spec_run literal (sinit limit) h adv 0)) a.
 
-(* What holds for every history: the same with the two recorded exceptions switched on
-   (Spec.RegistrySpec.as_implemented: F4 queue position, F4b limit on re-requests). *)
+(* What holds for every history: the same with the one recorded exception switched on
+   (Spec.RegistrySpec.as_implemented: F4 queue position).  The former second exception
+   (F4b, the limit refusing re-requests of held names) was repaired in the bus: the limit
+   rule is the literal one in both variants, see C04_limit_spares_held_names below. *)
 Theorem C04_refines_partial : forall limit h,
   let adv := advice_run (init_bus limit) h 0 in
   valid_advice as_implemented (sinit limit) h adv 0 /\
@@ -36,8 +38,8 @@ Theorem C04_refines_partial : forall limit h,
 Proof. exact refines_partial. Qed.
 Print Assumptions C04_refines_partial.
 
-(* ... and the literal specification itself on every history in which neither exceptional
-   situation arises ([quiet]: [exception_trigger] is false at every step). *)
+(* ... and the literal specification itself on every history in which the exceptional
+   situation does not arise ([quiet]: [exception_trigger] is false at every step). *)
 Theorem C04_refines_outside_exceptions : forall limit h,
   let adv := advice_run (init_bus limit) h 0 in
   quiet as_implemented (sinit limit) h adv 0 ->
@@ -72,13 +74,22 @@ Print Assumptions C04_queue_position_refuted.
 Definition f4b_history : list event :=
   [EvConnect; EvHello 0; EvRequest 0 nameA 1; EvRequest 0 nameA 0].
 
-(* F4b: with max_names_per_connection = 2 the owner of a.b (holding 2 names: unique + a.b)
-   re-requests it: the code answers LimitsExceeded, the specification ALREADY_OWNER (4) *)
-Theorem C04_limit_rerequest_refuted : forall adv,
-  nth 3 (snd (run (init_bus 2) f4b_history)) [] = [(0, MError ELimitsExceeded)] /\
+(* Formerly F4b (fixed in /repo): the per-connection limit counts names held, so a RequestName
+   for a name the caller already owns or waits for is never answered LimitsExceeded, in any
+   reachable state and with any limit ... *)
+Theorem C04_limit_spares_held_names : forall limit h c name flags,
+  queued c (mget (b_services (fst (run (init_bus limit) h))) (KW name)) = true ->
+  ~ In (c, MError ELimitsExceeded) (snd (step (fst (run (init_bus limit) h)) (EvRequest c name flags))).
+Proof. exact limit_spares_held_reachable. Qed.
+Print Assumptions C04_limit_spares_held_names.
+
+(* ... and the former refutation witness (max_names_per_connection = 2, the owner of a.b, holding
+   2 names, re-requests it) now gets ALREADY_OWNER (4) from the model as from the literal specification *)
+Theorem C04_limit_rerequest : forall adv,
+  nth 3 (snd (run (init_bus 2) f4b_history)) [] = [(0, MReply 4)] /\
   nth 3 (snd (spec_run literal (sinit 2) f4b_history adv 0)) [] = [(0, MReply 4)].
 Proof. intros adv. split; vm_compute; reflexivity. Qed.
-Print Assumptions C04_limit_rerequest_refuted.
+Print Assumptions C04_limit_rerequest.
 
 Theorem C04_full_statement_refuted : ~ C04_full_statement.
 Proof.
@@ -190,10 +201,13 @@ Proof. vm_compute. reflexivity. Qed.
 Example ex_final_owner : get_name_owner (fst (run (init_bus 512) ex_history)) (QS nameA) = Some (WConn 1).
 Proof. vm_compute. reflexivity. Qed.
 
-(* both exceptional situations are reachable *)
+(* the exceptional situation is reachable; the former second one no longer is one *)
 Example ex_trigger_f4 : exception_trigger (fst (spec_run as_implemented (sinit 512) (removelast f4_history) (fun _ => []) 0)) (EvRequest 2 nameA 2) = true.
 Proof. vm_compute. reflexivity. Qed.
-Example ex_trigger_f4b : exception_trigger (fst (spec_run as_implemented (sinit 2) (removelast f4b_history) (fun _ => []) 0)) (EvRequest 0 nameA 0) = true.
+Example ex_no_trigger_f4b : exception_trigger (fst (spec_run as_implemented (sinit 2) (removelast f4b_history) (fun _ => []) 0)) (EvRequest 0 nameA 0) = false.
+Proof. vm_compute. reflexivity. Qed.
+(* the limit still refuses a further name *)
+Example ex_limit_refuses_new : nth 4 (snd (run (init_bus 2) (f4b_history ++ [EvRequest 0 [98; 46; 99] 0]))) [] = [(0, MError ELimitsExceeded)].
 Proof. vm_compute. reflexivity. Qed.
 
 (* names that are refused / accepted *)
